@@ -46,6 +46,8 @@ func main() {
 	slog := flag.String("solver-log", "", "log SMT-LIB sent by worker 0 to this file")
 	dump := flag.String("dump-queries", "", "directory for standalone .smt2 dumps of discharged assertions")
 	verbose := flag.Bool("v", false, "print init notes")
+	fixw := flag.String("witness", "", "run concretely on the inputs of this witness/replay JSON file")
+	hashAx := flag.Bool("hash-axioms", false, "also assert pairwise hash injectivity axioms (default: equality rewriting only)")
 	flag.Parse()
 
 	overlay := map[string][]byte{}
@@ -76,6 +78,7 @@ func main() {
 		}
 		addOv(parts[0], parts[1])
 	}
+	base := map[string]int64{}
 	t0 := time.Now()
 	eng, err := Load(*dir, *pkg, overlay)
 	if err != nil {
@@ -87,6 +90,28 @@ func main() {
 	eng.solverTimeoutMs = *timeout
 	eng.solverLog = *slog
 	eng.dumpQueries = *dump
+	eng.hashAxioms = *hashAx
+	if *fixw != "" {
+		b, err := os.ReadFile(*fixw)
+		if err != nil {
+			fmt.Fprintln(os.Stderr, err)
+			os.Exit(3)
+		}
+		var doc struct {
+			Witness map[string]string `json:"witness"`
+		}
+		if err := json.Unmarshal(b, &doc); err != nil {
+			fmt.Fprintln(os.Stderr, err)
+			os.Exit(3)
+		}
+		eng.fixedWitness = doc.Witness
+		for k, v := range doc.Witness {
+			if strings.HasPrefix(k, "cfg:") {
+				n, _ := strconv.ParseInt(v, 10, 64)
+				base[k[4:]] = n
+			}
+		}
+	}
 	if *dump != "" {
 		os.MkdirAll(*dump, 0o755)
 	}
@@ -96,7 +121,6 @@ func main() {
 	}
 	ro := &RunOutput{Package: *pkg, LoadSec: time.Since(t0).Seconds(), Solver: *solver, StepLimit: *steps, MaxPaths: *maxPaths, OverlayList: ovList}
 	fmt.Fprintf(os.Stderr, "loaded %s in %.1fs\n", *pkg, ro.LoadSec)
-	base := map[string]int64{}
 	parseCfg := func(into map[string]int64, s string) {
 		for _, kv := range strings.FieldsFunc(s, func(r rune) bool { return r == ';' || r == ',' }) {
 			p := strings.SplitN(kv, "=", 2)
